@@ -11,6 +11,8 @@ import GM.Proof.ShiftSimXEnd2b
 import GM.Proof.ShiftSimXCode
 import GM.Proof.ShiftSimXQuoteHtml
 import GM.Proof.ShiftSimXHcl
+import GM.Proof.ShiftSimXHcl2
+import GM.Proof.ShiftSimXSafe2
 
 namespace GM.Blocks.Xs
 open GM GM.Text GM.Spec GM.Proof.Reader GM.Blocks GM.Blocks.L
@@ -60,8 +62,8 @@ theorem psim_cov6 (F : Frame) (hF : F.OK) (b : Bytes) (hnl : b.getLast? = some 1
   keysO := fun bp h parent s s' a e => bpOpen_keys bp h parent s s' a e
   keysC := fun bp h node s s' a e => bpContinue_keys bp h node s s' a e
   keysCl := fun bp h node s s' a e => bpClose_keys bp h node s s' a e
-  strictO := strictO6 b hnl
-  strictC := strictC6 b hnl
+  strictO := strictO6' b hnl
+  strictC := strictC6' b hnl
 
 /-- the fresh reader of the longer source is the fresh reader of `b`, extended -/
 theorem new_ext (b q : Bytes) (hnl : b.getLast? = some 10) : Reader.new (b ++ q) = shR (FX q) (Reader.new b) := by
@@ -74,7 +76,7 @@ theorem new_ext (b q : Bytes) (hnl : b.getLast? = some 10) : Reader.new (b ++ q)
   rfl
 
 /-- **the run on `b ++ "\n" ++ L ++ rest` reaches the top of the outer loop with the final store of `run b`** -/
-theorem run_reaches_top (b L rest : Bytes) (hnl : b.getLast? = some 10) (hpl : Plain6 b)
+theorem run_reaches_top (b L rest : Bytes) (hnl : b.getLast? = some 10) (hpl : PlainL b)
     (hL : ∃ body, L = body ++ [10] ∧ ∀ c ∈ body, c ≠ 10) (hLb : isBlank L = false)
     (hPK : PassKeeps b) (hOK : OpenKeeps b)
     (sa sd : St) (hsa : run b = .ok sa) (hsd : run (b ++ 10 :: (L ++ rest)) = .ok sd)
@@ -82,9 +84,8 @@ theorem run_reaches_top (b L rest : Bytes) (hnl : b.getLast? = some 10) (hpl : P
     ∃ s1 stats1 f1, AtTop b L rest sa.nodes s1 stats1 ∧ blocksLoop 0 f1 stats1 s1 = .ok ((), sd) := by
   have hP := psim_cov6 (FQ L rest) (FQ_ok L rest) b hnl
   have hNL : NL b := .inr hnl
-  have hO : OpenBlocksSim (FQ L rest) b Cov6 := openBlocks_p2 hP (FQ_ok L rest) hNL (triggers_cov6 b hpl)
-  have hcl := fun bp h node s s' st => continue_close_hasLine b hnl bp h node s s' st
-  have hcn := fun bp h node s s' st => continue_leaf_hasLine b hnl bp h node s s' st
+  have hO : OpenBlocksSim (FQ L rest) b Cov6 := openBlocks_p2 hP (FQ_ok L rest) hNL (trigAt_plainL b hpl)
+  have hcl := hcl6' b hnl
   have hXE : LinesXEndP b L rest := fun fA fB sa sb sA sB => linesLoop_xend hL hP fA fB sa sb sA sB
   have hb : 0 < b.length := by
     cases b with
@@ -111,7 +112,7 @@ theorem run_reaches_top (b L rest : Bytes) (hnl : b.getLast? = some 10) (hpl : P
         · rw [FX_ι, FX_shN]; rfl
         · have : (FQ L rest).c = 0 := rfl
           omega
-      have hl : HasLine b (initSt b) := ⟨_, ri_init b, by simpa [RCur.init] using hb⟩
+      have hl : HL b (initSt b) := ⟨⟨_, ri_init b, by simpa [RCur.init] using hb⟩, ts_init b⟩
       have hai : AI Cov6 (initSt b) := ⟨by intro x hx; simp [initSt] at hx, rfl, rfl, rfl, rfl⟩
       have hbi : BInv (FQ L rest) [] [] (initSt b).r.line :=
         ⟨[], by simp, (fun e he => by cases he), fun _ => Or.inl rfl, fun h => absurd rfl h⟩
@@ -119,7 +120,7 @@ theorem run_reaches_top (b L rest : Bytes) (hnl : b.getLast? = some 10) (hpl : P
         { st := Sh.stable_init b, k := Sh.a2_K_init b, top := by intro b0 h0; simp [initSt] at h0,
           gp := tl_GP_init b, att := by intro z hz; simp [initSt] at hz,
           pad := Sh.padOK_of_zero hpad0 }
-      have key := blocksLoop_x hnl hL hLb hP hO hcl hcn hPK hOK hXE (linesFuel b)
+      have key := blocksLoop_x hnl hL hLb hP hO hcl hPK hOK hXE (linesFuel b)
         (linesFuel (b ++ 10 :: (L ++ rest))) [] [] (initSt b) (initSt (b ++ 10 :: (L ++ rest)))
         (.inl ⟨hstart, hl⟩) hai rfl (by rw [hline0]; exact Int.le_refl _) hbi hau (by intro e he; cases he)
       exact key.apply ha hd hraw
